@@ -462,6 +462,38 @@ def fracs_of(res):
     return {a: [tuple(x) for x in d["all_fractions"]] for a, d in res.get("computed", {}).items()}
 
 
+def extraction_cross_check(cases, results):
+    """the two F5 witnesses are evaluated inside Coq by vm_compute (Proofs/JpRefuted.v: refuted_* with both flags off,
+    repaired_* with both on); the extracted OCaml model must give the same sheets and opening-balance cells"""
+    want = {
+        "f5-unordered-years.json": {
+            82: (["2019_Summary", "2021_Summary", "2020_Summary", "BTC_2019", "BTC_2021", "BTC_2020"],
+                 [("BTC_2021", 30, 4, "='BTC_2020'.I32"), ("BTC_2020", 30, 4, "='BTC_2019'.I31"), ("BTC_2020", 30, 8, "=E31+F31-H31"), ("BTC_2019", 31, 8, "=E32+F32-H32")]),
+            81: (["2019_Summary", "2020_Summary", "2021_Summary", "BTC_2019", "BTC_2020", "BTC_2021"],
+                 [("BTC_2020", 30, 4, "='BTC_2019'.I32"), ("BTC_2021", 30, 4, "='BTC_2020'.I31")])},
+        "f5-gap-year.json": {
+            82: (["2019_Summary", "2021_Summary", "BTC_2019", "BTC_2021"], [("BTC_2021", 30, 4, "='BTC_2020'.I31")]),
+            81: (["2019_Summary", "2021_Summary", "BTC_2019", "BTC_2021"], [("BTC_2021", 30, 4, "='BTC_2019'.I31")])},
+    }
+    out = []
+    for (name, m), res in zip(cases, results):
+        if name not in want or res.get("stage") not in ("computed", "generated"):
+            continue
+        for cmd, (names, cells) in want[name].items():
+            r = core.run_model([model_line(cmd, m, fracs_of(res))])[0]
+            if r[0] != 0:
+                out.append(f"{name}: extracted model cmd {cmd} answers {r[:1]}")
+                continue
+            sheets = l5.decode_report(r, 1)
+            if [s["name"] for s in sheets] != names:
+                out.append(f"{name}: extracted model cmd {cmd} gives sheets {[s['name'] for s in sheets]}, vm_compute in Coq gives {names}")
+            for sn, row, col, f in cells:
+                got = l5.final_cells(l5.sheet_by_name(sheets, sn)["writes"]).get((row, col)) if l5.sheet_by_name(sheets, sn) else None
+                if got != ("formula", f):
+                    out.append(f"{name}: extracted model cmd {cmd}, sheet {sn} cell ({row},{col}) = {got}, vm_compute in Coq gives {f}")
+    return out
+
+
 def load_corpus():
     out = []
     # corpus first (incl. the replays of the fixed defect F5), then the replay of the known finding F14 (must still fail)
@@ -480,6 +512,8 @@ def run(tier, build, replay=None):
         cases = load_corpus()
         rng = core.Rng(core.seed(), 20)
         n = 110 if tier == "quick" else 3200
+        if not str(build.translator.get("jp_report", "")).startswith("translated"):
+            n *= 2                      # source shape not recognised: the tie rests on the correspondence alone -> boosted stream
         cases += [(f"gen{k}", gen_case(rng, k)) for k in range(n)]
     results = l5.run_workers([{"multi": m, "generator": "tax_report_jp"} for _, m in cases])
     lines, idx = [], []
@@ -489,6 +523,9 @@ def run(tier, build, replay=None):
             idx.append(k)
     mres = dict(zip(idx, core.run_model(lines))) if build.driver_ok else {}
     nontriv, mism, feats, errors, cells_compared = set(), 0, {}, {}, 0
+    xcheck = extraction_cross_check(cases, results) if build.driver_ok and not replay else []
+    for text in xcheck:
+        out.violation(text, None, tags={"extraction"}, found_input=False)
     for k, ((name, m), res) in enumerate(zip(cases, results)):
         rep = m
         fs = features(m)
@@ -510,7 +547,7 @@ def run(tier, build, replay=None):
                 out.violation(f"{name}: the report generator fails on a valid input: {res['err']}: {res.get('msg')}", rep, tags={"generator-error"})
         else:
             for text, tags in oracle(m, res):
-                out.violation(f"{name}: {text}", rep, tags=tags | ({"F5"} if tags & {"opening-chain"} else set()))
+                out.violation(f"{name}: {text}", rep, tags=tags)
             if fs & {"unordered", "gap", "disposal-only-year", "feeless-transfer-only-year"} and "multi-year" in fs:
                 nontriv.add(core.case_hash(m))
             cells_compared += sum(len(s["cells"]) for s in res["sheets"][1:])
@@ -535,6 +572,7 @@ def run(tier, build, replay=None):
         "cells_compared": cells_compared,
         "input_features": feats,
         "generator_errors": errors,
+        "extraction_cross_check": "the two F5 witnesses: extracted model (cmd 81 / 82) = vm_compute inside Coq (Proofs/JpRefuted.v): " + ("agree" if not xcheck else "DIFFER"),
         "source_flags": {"years_sorted / previous_existing_year as read by the translator": build.translator.get("jp_report")},
     })
     out.assumptions = [
